@@ -9,7 +9,8 @@ _ASSUME = ['UBSan alignment and vptr checks are off (calc_chksum reads unaligned
 
 
 def _p(name, schema, q, t, **kw):
-    d = dict(name=name, harness='c03_total', variant='san',
+    d = dict(name=name, harness='c03_total', variant='san', hang_s=300,    # real hangs are caught by the harness' own CPU-time watchdog (2 s per case); this one only guards against a stalled process
+
              quick=dict(args=['schema=' + schema] + q[0], deadline=q[1]),
              thorough=dict(args=['schema=' + schema] + t[0], deadline=t[1]))
     d.update(kw)
@@ -33,15 +34,16 @@ check('C03',
                 'boundary-length family through the real encoders, with ASan/UBSan, a guard page and a CPU-time watchdog as oracle',
       design_ref='DESIGN.md §3 C03',
       text='Decode side, for both compiled schemas (FIX42UTEST, FIX44) and (no_chksum, permissive) in {F,T}^2: (1) token sequences = preamble variant (BeginString / BodyLength / MsgType '
-           'values of 0..8000 bytes, missing or reordered framing fields) x up to 2 (quick) / 3 (thorough) tokens drawn from a table built from the schema model (known header/body/trailer '
+           'values of 0..8000 bytes, missing or reordered framing fields) x up to 2 (quick) / 3 (thorough) tokens drawn from a table of about 150 tokens built from the schema model (all of them singly, 42 core tokens in pairs, 24 in triples) (known header/body/trailer '
            'fields, group counts 0/1/2/999999999/-1 with and without elements, nested groups, Length fields 0..4294967295 with and without their data field, unknown / aliased / empty / '
            'non-numeric tags, tags of 5..8000 digits, values of 0..8000 bytes, out-of-domain texts for int / float / char / boolean / date-time fields, unterminated fields) x placement '
            'before / after / without the mandatory body fields x trailer correct / absent / wrong / unterminated; (2) every prefix of four seed messages (Logon with a Length/data pair, '
            'Logon with all members, NewOrderSingle with all members and two elements per group, the message with the deepest group nesting) with and without a valid trailer appended; '
-           '(3) every single-byte substitution from {SOH,=,0,9,A,0x00,0xFF} at every position of the seeds, and all pairs of substitutions for the shortest seed; (4) a well-formed header '
-           'followed by every string of length <= 4 (quick) / 6 (thorough) over {1,3,5,9,=,SOH,A} with and without a valid trailer, and every string of length <= 5 / 7 over '
+           '(3) every single-byte substitution from {SOH,=,0,9,A,0x00,0xFF} at every position of the seeds (quick: of the two Logon seeds), and all pairs of substitutions within the first 24 (quick) / 60 (thorough) '
+           'bytes of the shortest seed; (4) a complete Logon (header + mandatory body) or the bare 8/9/35 triple '
+           'followed by every string of length <= 4 (quick) / 5 (thorough) over {1,3,5,9,=,SOH,A} with and without a valid trailer, and every string of length <= 4 / 5 over '
            '{8,9,=,SOH,1,A,3,5} on its own. Each input is handed to Message::factory in a heap string of exactly its size; the call must return a message (which is then re-encoded and '
-           'destroyed) or throw a std::exception. Encode side: every message type in the mandatory-only shape with one string field stretched to 100..70000 bytes, in particular so that '
+           'destroyed) or throw a std::exception. Encode side: every message type (quick: every fourth) in the mandatory-only shape with one string field stretched to 100..70000 bytes, in particular so that '
            'the bytes from "35=" on plus the terminator number 8191, 8192, 8193, 8194, through encode(f8String&) and encode(char**), each in a forked child.',
       level_note='The property quantifies over all byte strings up to 8192 bytes (2^65536 of them) and all messages; the check is exhaustive only over the stated finite family, which is '
                  'built from the shortcuts visible in the code (buffer sizes 32 / 2048 / 8192, 16-bit tag conversion, the Length/data look-ahead, the group element loop). Inputs whose badness needs a '
